@@ -532,7 +532,8 @@ theorem decodeGrid1_shape (bs : Bytes) : Impl.V1.decodeGrid bs =
     if grid1Entered bs then (forN (rd V2.marker) (gridCount bs) >>= grid1Check) (bs.drop 8)
     else if grid1Empty bs then .ok ([], bs.drop 8)
     else .throw .invalid_argument := by
-  unfold Impl.V1.decodeGrid grid1Entered grid1Empty gridCount
+  rw [ArithZ.decodeGrid1_eq_Z]
+  unfold ArithZ.decodeGrid1Z grid1Entered grid1Empty gridCount
   simp only [bind_run, remaining_run]
   by_cases h8 : bs.length < 8
   · have : ¬ 8 ≤ bs.length := by omega
@@ -701,13 +702,14 @@ def waveTail (w : Nat) (spe : UInt64) (es : List Impl.V1.Entry) : Cur Impl.V1.Wa
   if rem ≠ 0 then throwC .runtime_error else
   pure (⟨spe, es⟩ : Impl.V1.Wave)
 
-theorem decodeWave_shape (minLen w : Nat) (entry : Cur Impl.V1.Entry) (hm : 24 ≤ minLen)
-    (bs : Bytes) : Impl.V1.decodeWave minLen w entry bs =
+theorem decodeWave_shape (minLen w : Nat) (entry : Cur Impl.V1.Entry) (hm : 24 ≤ minLen) (hw : 0 < w) (hw6 : w ≤ 6)
+    (bs : Bytes) (hlen : bs.length < maxCount) : Impl.V1.decodeWave minLen w entry bs =
     if waveEntered minLen w bs then
       ((forN entry (waveCount bs) >>= waveTail w (u64be.get (bs.drop 16))) (bs.drop 24)).bind
         (fun p => .ok p.1)
     else .throw .invalid_argument := by
-  unfold Impl.V1.decodeWave waveEntered waveCount
+  rw [ArithZ.decodeWave_eq_Z minLen w hm hw hw6 entry bs hlen]
+  unfold ArithZ.decodeWaveZ waveEntered waveCount
   by_cases hlen : bs.length < minLen
   · have : ¬ minLen ≤ bs.length := by omega
     simp only [hlen, if_true, this, false_and, if_false]
@@ -736,19 +738,19 @@ def hiresEntered (bs : Bytes) : Prop := waveEntered 30 6 bs
 instance (bs : Bytes) : Decidable (ovwEntered bs) := by unfold ovwEntered; infer_instance
 instance (bs : Bytes) : Decidable (hiresEntered bs) := by unfold hiresEntered; infer_instance
 
-theorem decodeOvw1_shape (bs : Bytes) : Impl.V1.decodeOvw bs =
+theorem decodeOvw1_shape (bs : Bytes) (hlen : bs.length < maxCount) : Impl.V1.decodeOvw bs =
     if ovwEntered bs then
       ((forN Impl.V1.ovwEntry (waveCount bs) >>= waveTail 3 (u64be.get (bs.drop 16)))
         (bs.drop 24)).bind (fun p => .ok p.1)
     else .throw .invalid_argument :=
-  decodeWave_shape 27 3 Impl.V1.ovwEntry (by omega) bs
+  decodeWave_shape 27 3 Impl.V1.ovwEntry (by omega) (by omega) (by omega) bs hlen
 
-theorem decodeHires1_shape (bs : Bytes) : Impl.V1.decodeHires bs =
+theorem decodeHires1_shape (bs : Bytes) (hlen : bs.length < maxCount) : Impl.V1.decodeHires bs =
     if hiresEntered bs then
       ((forN Impl.V1.hiresEntry (waveCount bs) >>= waveTail 6 (u64be.get (bs.drop 16)))
         (bs.drop 24)).bind (fun p => .ok p.1)
     else .throw .invalid_argument :=
-  decodeWave_shape 30 6 Impl.V1.hiresEntry (by omega) bs
+  decodeWave_shape 30 6 Impl.V1.hiresEntry (by omega) (by omega) (by omega) bs hlen
 
 theorem ovwEntered_bound {bs : Bytes} (h : ovwEntered bs) :
     waveCount bs * 3 ≤ bs.length - 24 := by
